@@ -23,12 +23,14 @@ func c07(r *core.Report) {
 
 	r.Rule("C07-PROMOTE", "Channel.Deliver re-checks readiness after every successful session delivery and promotes before handing out data", 2)
 	ruleAppAfterRecheck(r, c, "C07-PROMOTE")
+	r.Rule("C07-NEW-HANDSHAKE", "an established session lets a fresh InitHello fall through to the channel (error or empty reply)", 2)
 	r.Rule("C07-APP-READY", "every session transition that returns application data ends in a ready state (so the session is promoted)", 2)
 	if ts := buildTypestate(r); ts != nil {
 		if ts.err != nil {
 			r.Fail("typestate extraction failed: %v", ts.err)
 		} else {
 			ts.checkAppImpliesReady("C07-APP-READY")
+			ts.checkEstablishedIgnoresHello("C07-NEW-HANDSHAKE")
 		}
 	}
 
